@@ -395,12 +395,15 @@ end
 
 /-! ## Physical `take` / `filter` on fixed-width layouts (values buffer + validity bitmap) -/
 
+/-- the byte whose bit `j` is `bs[j]` (LSB first) -/
+def bitsToByte : List Bool → Nat
+  | [] => 0
+  | b :: r => (if b then 1 else 0) + 2 * bitsToByte r
+
 /-- pack bits LSB-first into bytes -/
 def packBits : List Bool → List Nat
   | [] => []
-  | bs@(_ :: _) =>
-    let byte := (List.range 8).foldl (fun acc j => acc + (if bs.getD j false then 2 ^ j else 0)) 0
-    byte :: packBits (bs.drop 8)
+  | bs@(_ :: _) => bitsToByte (bs.take 8) :: packBits (bs.drop 8)
 termination_by bs => bs.length
 decreasing_by simp_all; omega
 
@@ -415,7 +418,7 @@ def takeFixed (w : Nat) (d : ArrayData) (idx : List Nat) : Option ArrayData :=
       let nulls := d.nulls.map (fun n =>
         let bits := idx.map (fun i => nbit n i)
         ({ bytes := packBits bits, off := 0, len := idx.length,
-           nullCount := (bits.filter (fun b => !b)).length } : Nulls))
+           nullCount := countNulls (packBits bits) 0 idx.length } : Nulls))
       some ⟨d.type, idx.length, 0, nulls, [vals], []⟩
     else none
   | _ => none
